@@ -23,8 +23,16 @@ fn strat(bits: usize) -> BoxedStrategy<Case> {
         (0..=n).prop_map(move |k| mask_vec((0..n).map(|i| if i >= k { u64::MAX } else { 0 }).collect(), bits)),
     ];
     let val = prop_oneof![3 => uint(bits), 1 => extra];
-    (val.clone(), val, index_around(bits, 64), index_around(bytes, 8), any::<bool>())
-        .prop_map(|(a, b, i, j, sv)| Case::new().l(a).l(b).n(i).n(j).n(sv as u64))
+    (val.clone(), val, index_around(bits, 64), index_around(bytes, 8), any::<bool>(), 0u8..8)
+        .prop_map(move |(a, b, i, j, sv, rel)| {
+            // related operands: equal, complementary
+            let b = match rel {
+                0 => a.clone(),
+                1 => mask_vec(a.iter().map(|x| !x).collect(), bits),
+                _ => b,
+            };
+            Case::new().l(a).l(b).n(i).n(j).n(sv as u64)
+        })
         .boxed()
 }
 
@@ -91,6 +99,18 @@ fn body<const B: usize, const L: usize>(c: &Case, rec: &mut Rec) -> R {
     chk!(rec, "bitand_assign", { let mut x = a; x &= b; x }, and_e);
     chk!(rec, "bitor_assign", { let mut x = a; x |= b; x }, or_e);
     chk!(rec, "bitxor_assign", { let mut x = a; x ^= b; x }, xor_e);
+    // the by-reference operator forms are separate impls of the same operators
+    chk!(rec, "bitand(&,&)", &a & &b, and_e);
+    chk!(rec, "bitor(&,&)", &a | &b, or_e);
+    chk!(rec, "bitxor(&,&)", &a ^ &b, xor_e);
+    chk!(rec, "bitand(&,val)", &a & b, and_e);
+    chk!(rec, "bitor(&,val)", &a | b, or_e);
+    chk!(rec, "bitxor(&,val)", &a ^ b, xor_e);
+    chk!(rec, "bitand(val,&)", a & &b, and_e);
+    chk!(rec, "bitor(val,&)", a | &b, or_e);
+    chk!(rec, "bitxor(val,&)", a ^ &b, xor_e);
+    chk!(rec, "bitxor_assign(&)", { let mut x = a; x ^= &b; x }, xor_e);
+    chk!(rec, "not(&)", !&a, not_e);
 
     // ---- bit access
     let bit_e = idx < B && ab.bit(idx as u64);
